@@ -146,7 +146,7 @@ func c01Body(x *explore.Ctx, cfg WConfig, prog int, tier string) {
 
 var rbsChoices = []int{0, 1, 126, 256}
 var rbufChoices = []int{4096, 1, 2, 7, 125}
-var chunkChoices = []int{0, 1, 2, 3, 7, 125, 126}
+var chunkChoices = []int{0, 1, 2, 125, 3, 7, 126}
 
 // readBack feeds the writer's bytes to a peer Conn and compares with what was sent.
 func readBack(x *explore.Ctx, e *WEnv, id string) {
